@@ -150,17 +150,28 @@ theorem reporter_is_complete (ops : List ROp) :
       (t.2.2.2.complete = true → isComplete t.2.2.1 = true) :=
   Lemmas.reporter_is_complete ops
 
-/-- A reporter with messages: the completion message is printed once for an operation that announces
-completion and not at all otherwise (with `reporter_announce_ok`: exactly once per crossing); the progress
-message is printed exactly for a progress event with maximum ≠ 0 and value ≤ maximum; messages come in the
-order of the events, and `progress` is emitted before `complete`. -/
-theorem reporter_messages (o : ROut) :
-    o.printed.count REv.complete = (if o.complete then 1 else 0) ∧
-    (∀ v m, REv.progress v m ∈ o.printed ↔ (o.progress = some (v, m) ∧ m ≠ 0 ∧ v ≤ m)) ∧
-    o.printed.Sublist o.events ∧
-    (∀ v m, o.progress = some (v, m) → o.complete = true →
-      o.events = [REv.progress v m, REv.complete]) :=
-  Lemmas.printed_spec o
+/-- A REPORTER WITH MESSAGES, along every history from the initial state.  At each step `t = (pre, op, post, out)` of
+`rrun RState.init ops` (so `out` is an output a step really produces — the statement is not about arbitrary `ROut`
+records), with `valueSet pre op` the value the operation hands to `_set_value` (`increment`: `pre.value + 1`, the
+`value` setter: its argument, `set_complete`: `pre.max`; `value_max` setter and `reset`: none):
+* the progress message `(v, m)` is printed exactly when the operation is a value update to `v`, `m` is the maximum of
+  the PRE-state, `m ≠ 0` and `v ≤ m` (`_default_on_progress`, event.py:174-182);
+* `complete` is announced exactly when the operation is a value update to some `v ≥ pre.max` while the completion flag
+  of the pre-state is not set (with `reporter_announce_ok`: exactly once per crossing), and the completion message is
+  printed once for an announcement and not at all otherwise;
+* a value update emits `progress(v, pre.max)` FIRST and `complete` after it; an operation that is not a value update
+  emits nothing; the printed messages come in the order of the events. -/
+theorem reporter_messages (ops : List ROp) :
+    ∀ t ∈ rrun RState.init ops,
+      (∀ v m, REv.progress v m ∈ t.2.2.2.printed ↔
+        (valueSet t.1 t.2.1 = some v ∧ m = t.1.max ∧ m ≠ 0 ∧ v ≤ m)) ∧
+      (t.2.2.2.complete = true ↔ ∃ v, valueSet t.1 t.2.1 = some v ∧ t.1.max ≤ v ∧ t.1.completed = false) ∧
+      t.2.2.2.printed.count REv.complete = (if t.2.2.2.complete then 1 else 0) ∧
+      (∀ v, valueSet t.1 t.2.1 = some v →
+        t.2.2.2.events = REv.progress v t.1.max :: (if t.2.2.2.complete then [REv.complete] else [])) ∧
+      (valueSet t.1 t.2.1 = none → t.2.2.2.events = []) ∧
+      t.2.2.2.printed.Sublist t.2.2.2.events :=
+  Lemmas.reporter_messages ops
 
 /-! Non-vacuity -/
 example : erun stubResult EState.init
@@ -210,6 +221,8 @@ example : (rrun RState.init [.setMax 2, .increment, .increment, .setMax 1, .setV
       (fun t => (t.2.2.1.completed, isComplete t.2.2.1, t.2.2.2.printed))
     = [(false, false, []), (false, false, [.progress 1 2]), (true, true, [.progress 2 2, .complete]),
        (true, true, []), (false, false, [.progress 0 1])] ∧
+  (rrun RState.init [.setMax 2, .increment, .increment, .setMax 1, .setValue 0]).map (fun t => valueSet t.1 t.2.1)
+    = [none, some 1, some 2, none, some 0] ∧
   isComplete RState.init = true ∧ progressFrac RState.init = none ∧
   (rstep RState.init (.setValue 3)).2.printed = [.complete] ∧
   progressFrac (rstep ⟨0, 2, false⟩ (.setValue 3)).1 = some (3, 2) := by decide
